@@ -197,7 +197,7 @@ PROPS = {
     },
     "C05": {
         "theorems": T("C05", ["importFind_none_iff", "importFind_alias_first", "cascade_exclusive", "missing_exact", "correct_is_silent", "match_iff_identical", "value_form_excludes_pointer_methods"]),
-        "suites": [("prog", {"impl": "1", "focus": "IMPL", "n": 100, "nocorpus": "1"}), ("prog", {"focus": "IMPL", "n": 40}), ("std", {"withmodel": "1", "focus": "IMPL"})],
+        "suites": [("prog", {"impl": "1", "focus": "IMPL", "n": 100, "nocorpus": "1"}), ("prog", {"impl": "1", "focus": "IMPL", "n": 40, "nocorpus": "1", "scan": "1"}), ("prog", {"focus": "IMPL", "n": 40}), ("std", {"withmodel": "1", "focus": "IMPL"})],
         "assumptions": [
             "go/types is the oracle the property names: method sets, Func.Id, types.Identical (signatures numbered up to it), types.Implements are computed by the extractor and handed to the model; the real tool's IMPL diagnostics (code, interface, listed methods) are compared with that oracle on every scenario",
             "a qualifier that resolves only through ImportMap.Find's exact-path / path-suffix fallbacks is Unspecified (the pinned suite demands the fallback): the specification follows the model there",
